@@ -8,7 +8,7 @@ import native as nat
 EXPLANATION = ('C11: real Bracket_Method::Bracket, Brent::Minimize, Find_Minimum/Find_Maximum and the three Minimization::minimize overloads with an uninterpreted objective, all paths up to a bound on the number of objective evaluations: '
                'Bracket returns a bracketing triple (fb <= fa, fb <= fc, bx between ax and cx, stored values are the objective at the stored points); Brent returns the point of least value seen, inside the bracket; '
                'inductive step over the Brent loop from an arbitrary state satisfying its invariant (module variant lowered with loop rotation disabled): evaluation inside the current bracket, best value never increases, invariant re-established - for every number of iterations; '
-               'Find_Minimum is never worse than both starting abscissae; Find_Maximum(f) and Find_Minimum(-f) give identical terms; Nelder-Mead: reported fmin / y / simplex are the objective at the reported points, best-first, never worse than the best initial vertex; the convenience overloads start from point + delta*e_i.')
+               'Find_Minimum is never worse than both starting abscissae; Find_Maximum(f) and Find_Minimum(-f) give identical terms; Nelder-Mead: reported fmin / y / simplex are the objective at the reported points, best-first, never worse than the best initial vertex, returned only when the spread of the vertex values passes the relative test against ftol; the convenience overloads start from point + delta*e_i.')
 BOUNDS = {'quick': {'bracket_evals': 5, 'brent_evals': 3, 'findmin_evals': 5, 'nm_dims': [1, 2], 'nm_extra_evals': 3}, 'thorough': {'bracket_evals': 7, 'brent_evals': 6, 'findmin_evals': 8, 'nm_dims': [1, 2, 3], 'nm_extra_evals': 5}}
 NOT_DECIDED = ['all convergence-distance clauses (returned point within the tolerance-implied distance of the true minimiser)', 'behaviour beyond the evaluation bound (paths with more evaluations are cut)']
 ASSUMPTIONS = ['objective uninterpreted; doubles exact reals', 'paths are explored up to the stated number of objective evaluations; tolerances symbolic (so that returning paths exist at every depth)']
@@ -171,6 +171,11 @@ def job_nm(nd, mode, extra):
             res.append(prove('%s/state-consistent[%d]' % (tag, pi), hyp, z3.And(fmin == y[0], fmin == FN(*xmin), *([y[i] == FN(*simp[i]) for i in range(npts)] + [xmin[j] == simp[0][j] for j in range(nd)])), 60000, mv, key='C11/nm/state-consistent', sample=(nret == 1)))
             res.append(prove('%s/best-first[%d]' % (tag, pi), hyp, z3.And(*[y[0] <= y[i] for i in range(npts)]), 60000, mv, key='C11/nm/best-first'))
             res.append(prove('%s/not-worse-than-start[%d]' % (tag, pi), hyp, z3.And(*[fmin <= FN(*[toR(t) for t in start[i]]) for i in range(npts)]), 60000, mv, key='C11/nm/descent'))
+            # termination certificate: the routine returns (below the evaluation cap) only when the spread of the objective over the final simplex is below ftol, relative to the magnitudes (Numerical Recipes' rtol with TINY = 1e-10)
+            hi_ = y[0]
+            for t in y[1:]: hi_ = z3.If(t >= hi_, t, hi_)
+            ab = lambda t: z3.If(t >= 0, t, -t)
+            res.append(prove('%s/returns-only-with-a-small-spread[%d]' % (tag, pi), hyp, 2 * ab(hi_ - y[0]) < FT * (ab(hi_) + ab(y[0]) + RV(1e-10)), 60000, mv, key='C11/nm/termination'))
     res.append(ob(tag + '/coverage', 'discharged' if nret else 'broken', key='C11/coverage', detail='%d returning of %d paths' % (nret, len(paths))))
     return res
 
@@ -222,6 +227,17 @@ def replay(ctx, o):
         else:
             pp = start[:nd]; dl = [start[nd * (i + 1) + i] - start[i] for i in range(nd)]
             if mode == 1: dl = [dl[0]]
+        if key == 'C11/nm/termination':
+            # bowls with a negative minimum value, started on simplices whose values straddle zero (the spread test mixes signs there): the returned vertex values must satisfy the spread test
+            for ndd, st_, dl_ in ((1, [1.0], [1.0]), (2, [1.0, 0.0], [1.0, 1.0]), (2, [0.2, 0.1], [0.5, 0.5]), (3, [1.0, 0.0, 0.0], [1.0, 1.0, 1.0])):
+                off = 2.5; ob_ = lambda c: sum(x * x for x in c) - off
+                def fo(p, k, ob_=ob_): return ob_([p[i] for i in range(k)])
+                for ftol in (1e-3, 1e-8):
+                    r = nat.call(so, 'verif_c11_nm', [('i32', 2), ('u32', ndd), ('dbl[]', st_), ('dbl[]', dl_), ftol, ('dbl[]', [0.0] * ndd), ('dbl[]', [0.0] * (3 + ndd + (ndd + 1) * ndd))], restype='void', fcb=fo, fcb_name='verif_fv_ptr', fcb_sig=sigv)
+                    if r['status'] != 'ok': continue
+                    yy = r['arrays'][3][1:2 + ndd]; hi_, lo_ = max(yy), min(yy); rt = 2 * abs(hi_ - lo_) / (abs(hi_) + abs(lo_) + 1e-10)
+                    if not rt < ftol: return True, 'native Nelder-Mead on sum x^2 - 2.5 from %s (deltas %s), ftol %g returned after %d evaluations with vertex values %s: relative spread %.3g' % (st_, dl_, ftol, len(r['calls']), yy, rt)
+            return False, 'native Nelder-Mead on bowls with a negative minimum: every return satisfies the spread test'
         seen = []
         def fv(p, k): c = [p[i] for i in range(k)]; v = obj(c); seen.append((c, v)); return v
         r = nat.call(so, 'verif_c11_nm', [('i32', mode), ('u32', nd), ('dbl[]', pp), ('dbl[]', dl), 1e-8, ('dbl[]', [0.0] * nd), ('dbl[]', [0.0] * (3 + nd + npts * nd))], restype='void', fcb=fv, fcb_name='verif_fv_ptr', fcb_sig=sigv)
